@@ -4,7 +4,8 @@
        -> `for a, d in zip(A[E:], DS): .. a ..`      (`name = A[E + i]` as the first statement names the element directly)
  N37 inside a loop `if C: v = X` (v a loop target, no else) followed by the single statement S that reads v, v dead afterwards
        -> `if C: S[v:=X] else: S`
- N38 `D[k] = A if C else B` (a statement)  ->  `if C: D[k] = A else: D[k] = B`
+ N38 `D[k] = A if C else B` / `x.a = A if C else B` (a statement)  ->  `if C: D[k] = A else: D[k] = B`
+ N56 adjacent `if T: A else: B` + `if T: C else: D` (same isinstance test, name not re-bound) -> `if T: A; C else: B; D`
  N39 `len(X) if X else 0` -> `len(X or ())`
  N53 `D.get(K, X)` over plain operands -> `D[K] if K in D else X`
  N51 a loop variable re-bound from itself (`k = f(k)`) gets its own name for the new value
@@ -89,8 +90,8 @@ def _n38(fn):
     for holder, fld, blk in list(_blocks(fn)):
         out = []
         for st in blk:
-            if (isinstance(st, ast.Assign) and len(st.targets) == 1 and isinstance(st.targets[0], ast.Subscript)
-                    and isinstance(st.value, ast.IfExp)):
+            if (isinstance(st, ast.Assign) and len(st.targets) == 1 and isinstance(st.targets[0], (ast.Subscript, ast.Attribute))
+                    and isinstance(st.value, ast.IfExp) and _is_chain(st.targets[0].value)):
                 t = st.targets[0]
                 a = ast.copy_location(ast.Assign([copy.deepcopy(t)], st.value.body, lineno=st.lineno), st)
                 b = ast.copy_location(ast.Assign([copy.deepcopy(t)], st.value.orelse, lineno=st.lineno), st)
@@ -657,6 +658,28 @@ def _n52(fn):
             i = max(j, i + 1)
 
 
+def _n56(fn):
+    """N56 two adjacent statements `if T: A else: B` and `if T: C else: D` with the same isinstance test on a name that A and B do
+    not re-bind are one: `if T: A; C else: B; D`"""
+    for holder, fld, blk in list(_blocks(fn)):
+        i = 0
+        while i + 1 < len(blk):
+            a, b = blk[i], blk[i + 1]
+            if (isinstance(a, ast.If) and isinstance(b, ast.If) and isinstance(a.test, ast.Call) and isinstance(a.test.func, ast.Name)
+                    and a.test.func.id == 'isinstance' and len(a.test.args) == 2 and isinstance(a.test.args[0], ast.Name)
+                    and ast.dump(a.test) == ast.dump(b.test)):
+                v = a.test.args[0].id
+                rebinds = any(isinstance(n, ast.Name) and n.id == v and not isinstance(n.ctx, ast.Load)
+                              for s_ in a.body + a.orelse for n in ast.walk(s_))
+                jumps = any(isinstance(n, (ast.Return, ast.Raise, ast.Break, ast.Continue)) for s_ in a.body + a.orelse for n in ast.walk(s_))
+                if not rebinds and not jumps:
+                    a.body = list(a.body) + list(b.body)
+                    a.orelse = list(a.orelse) + list(b.orelse)
+                    del blk[i + 1]
+                    continue
+            i += 1
+
+
 def pre_normalize(tree: ast.Module) -> ast.Module:
     tree = _n39(tree)
     tree = _n47(tree)
@@ -676,5 +699,6 @@ def pre_normalize(tree: ast.Module) -> ast.Module:
         _n36(fn, counter)
         _n37(fn)
         _n38(fn)
+        _n56(fn)
     ast.fix_missing_locations(tree)
     return tree
